@@ -21,6 +21,10 @@ def _mk(obl, axioms, timeout_ms, ematching_only):
     return s
 
 
+def _is_budget(reason):
+    return any(w in reason for w in ("timeout", "canceled", "resource", "memory", "interrupted"))
+
+
 def check(obl, axioms=(), timeout_ms=10000, want_smt2=False):
     """Two passes: (1) E-matching only (fast proofs, never `sat`); (2) if not unsat, the default
     configuration with model-based quantifier instantiation, which can also answer `sat`."""
@@ -31,9 +35,16 @@ def check(obl, axioms=(), timeout_ms=10000, want_smt2=False):
     else:
         s = _mk(obl, axioms, timeout_ms, True)
         r = s.check()
+        reason1 = None
         if r != z3.unsat:
+            reason1 = s.reason_unknown()
+            s1 = s
             s = _mk(obl, axioms, timeout_ms, False)
             r = s.check()
+            if r == z3.unknown and _is_budget(s.reason_unknown()) and not _is_budget(reason1):
+                # E-matching saturated without a proof (pass 1) and model-based instantiation ran out of
+                # time (pass 2): report the saturation verdict of pass 1
+                s = s1
     dt = time.time() - t0
     out = {"name": obl.name, "kind": obl.kind, "line": obl.line, "seconds": round(dt, 3), "solver": "z3-5.1.0(api)"}
     if obl.expect_sat:
@@ -53,7 +64,7 @@ def check(obl, axioms=(), timeout_ms=10000, want_smt2=False):
     else:
         reason = s.reason_unknown()
         out["reason"] = reason
-        if any(w in reason for w in ("timeout", "canceled", "resource", "memory", "interrupted")):
+        if _is_budget(reason):
             out["status"] = UNKNOWN            # budget exhausted: undecided
         else:
             # The solver stopped without a proof and without exhausting its budget ("incomplete
